@@ -535,7 +535,7 @@ for _p in ():
 # ------------------------------------------------------------------ translation tie (Rust AST regenerated by /verif/translator)
 CODE_TIE = {'C05': ['Client', 'Now'], 'C06': ['Client', 'Now'], 'C14': ['Client', 'Now', 'Errors'],
             'C01': ['Client', 'Updater', 'Extract', 'Drift', 'Poller', 'Dispatch', 'Now', 'Errors'],
-            'C07': ['Extract'], 'C10': ['Extract', 'Leap', 'Poller'], 'C08': ['Updater', 'Dispatch'], 'C09': ['Updater', 'Dispatch', 'Workers'], 'C19': ['Drift'],
+            'C07': ['Extract'], 'C10': ['Extract', 'Leap', 'Poller'], 'C08': ['Updater', 'Dispatch'], 'C09': ['Updater', 'Dispatch', 'Workers', 'Header'], 'C19': ['Drift'],
             'C02': ['Seqlock'], 'C03': ['Seqlock'], 'C04': ['Seqlock', 'Header', 'WriterNew', 'Workers'], 'C11': ['Seqlock'], 'C18': ['Seqlock'],
             'C16': ['Header', 'WriterNew', 'Errors'], 'C17': ['Header', 'Errors'], 'C12': ['Poller', 'Now', 'Errors'], 'C13': ['Poller', 'Dispatch'],
             'C15': ['Threads', 'Workers']}
